@@ -44,7 +44,7 @@ BudgetsOK == Ev.wm => \A i \in DOMAIN Ev.ret :
 (* skip: a look-up already reported in an earlier validation round (the harness re-validates the  *)
 (* rest of a history after a rejection, so that one finding does not hide what follows it)        *)
 GetOK == /\ GetShapeOK
-         /\ Ev.skip \/ (Filterable(Ev.c, g) => (Got = eff[Ev.c] /\ BudgetsOK))
+         /\ Ev.skip \/ (Judged(Ev.c, g) => (Got = eff[Ev.c] /\ BudgetsOK))
 
 (* ---- contents ---- *)
 LinesOf(e) == [i \in DOMAIN e.lines |-> [blank |-> e.lines[i].blank, has |-> RngS(e.lines[i].has)]]
@@ -71,7 +71,7 @@ Accepts ==
 Apply ==
     CASE Ev.ev = "add" ->
            /\ IF Ev.raised THEN UNCHANGED <<eff, regs>>
-              ELSE /\ eff' = [c \in DS |-> IF Reaches(Ev.k, c, g) /\ Filterable(c, g) THEN eff[c] \cup PatsOf(Ev) ELSE eff[c]]
+              ELSE /\ eff' = [c \in DS |-> IF Reaches(Ev.k, c, g) /\ Judged(c, g) THEN eff[c] \cup PatsOf(Ev) ELSE eff[c]]
                    /\ regs' = regs \cup {[k |-> Ev.k, p |-> p, mx |-> Ev.mx] : p \in PatsOf(Ev)}
            /\ UNCHANGED <<g, FILTERS, cache, ret, nops, cvars, lastEff>>
       [] Ev.ev = "get" ->
@@ -81,6 +81,7 @@ Apply ==
 
 (* ---- diagnosis: failing clause + abstract features of the failing case ---- *)
 KindOf(c) == CASE c \in {"I1", "I2", "I3"} -> "impl"
+               [] c \in Inner -> "inner"
                [] c \in Points -> "point"
                [] c \in Parsers -> "parser"
                [] c \in Combs -> "combiner"
